@@ -17,7 +17,14 @@ RULE = ("newton.scalar / newton.sys / newton.sysjac cases, f64 and Complex<f64>:
         "basin, tol 1e-12..1e-4, delta 1e-8 / 1e-6 / 2^-k, iteration limits 0..50, defaults of Newton::new; (b) root-free, "
         "singular-derivative and non-square functions for the termination half; (c) search-only (no model term) builtin exp/trig "
         "equations and non-differentiable functions (|x|, sqrt|x|, cbrt, step, kinked systems). User functions are ASTs shared with "
-        "the Gallina model. Compared with the float model: parameters() before/after, Ok/Err, value, number of closure calls, the call "
+        "the Gallina model. (d) special structure (specB): systems whose Jacobian has an exact sparsity pattern (diagonal = decoupled, "
+        "lower / upper triangular, tridiagonal, full) with the equations reordered by a permutation (row exchange in the first pass, exact "
+        "zeros on the diagonal), guesses exactly at the root or with some components exactly at the root, complex systems with purely real "
+        "data; scalar problems on exactly representable data (slopes +-1, +-2, +-1/2, roots 0 / +-1, guesses 0 / at the root / at distance "
+        "tol), complex problems living on one axis (roots +-i sqrt k approached along the imaginary axis, real problems posed in Complex, "
+        "coefficients +-1 / +-i); (e) setter histories (kinds newton.hscalar / hsys / hsysjac): tolerance / delta / iterations / guess in "
+        "every one of the 24 orders, overridden earlier settings, fields never set, solves in between -- judged against the effective "
+        "configuration. Compared with the float model: parameters() before/after, Ok/Err, value, number of closure calls, the call "
         "points pass by pass, result and count of a second call. distinct = distinct executor line; non-trivial = at least one pass ran")
 TRUSTED = ["Coq 8.16.1 kernel + vm_compute (primitive floats)", "Rust executor /verif/harness (k_newton.rs, fnast.rs)",
            "python driver (generators, AST printers fnlib.py, independent Newton-step oracle, mpmath root refinement, comparators)",
@@ -41,7 +48,9 @@ MANIFEST = dict(
           "passes (_partial). The float instance of the same definitions is run against "
           "the implementation (Ok/Err, value, call counts, call points, second call; bit-compared) on shared-AST functions, f64 and "
           "Complex; an independent oracle (known roots, stopping-test replay, last-iterate recomputation, call bounds, parameters "
-          "before/after) searches for a failing input, including root-free and non-differentiable functions."),
+          "before/after, every recorded iterate of a known-root family is the Newton update of its predecessor, a point reported as a "
+          "root is finite) searches for a failing input, including root-free and non-differentiable functions, structured Jacobians "
+          "(sparsity patterns, row-permuted dominant systems), axis-aligned complex problems and setter histories in every order."),
     note=("Convergence over R is proved for: affine scalar functions and affine systems (exact root in one pass, at Qc, R and C); x^2 - c (newton_sqrt, "
           "newton_sqrt_converges); every C^1 scalar function with a Lipschitz derivative inside its basin (newton_basin_no_panic / _contraction / _ok / _pass_count, "
           "newton_quadratic_step, newton_ok_near_root_general), convex monotone functions from any start above the root (newton_monotone*), the same for 1x1 systems "
@@ -668,9 +677,9 @@ def generate(rng, tier):
     cases += gen_sys_builtin(rng.fork("sysb"), 80 if q else 800)
     # specB: special structure -- Jacobian sparsity patterns / row permutations / guesses at the root, exactly representable and
     # axis-aligned scalar problems, setter histories in every order
-    cases += gen_struct_systems(rng.fork("struct"), 120 if q else 900)
-    cases += gen_special_scalar(rng.fork("special"), 72 if q else 720)
-    cases += gen_histories(rng.fork("hist"), 96 if q else 960)
+    cases += gen_struct_systems(rng.fork("struct"), 120 if q else 600)
+    cases += gen_special_scalar(rng.fork("special"), 72 if q else 480)
+    cases += gen_histories(rng.fork("hist"), 96 if q else 480)
     # spread heavy and light cases over the model shards
     withm = [c for c in cases if c.term is not None]
     without = [c for c in cases if c.term is None]
